@@ -82,7 +82,8 @@ class _Index(object):
         out = self._view()
         if dtype is not None and np.dtype(dtype) != out.dtype:
             return out.astype(dtype)
-        return out
+        # the binding exposes the buffer protocol, so numpy.array(x, copy=True) copies: honour numpy 2's copy keyword
+        return out.copy() if copy else out
 
     def __len__(self):
         return self._info()[2]
@@ -359,7 +360,11 @@ def box(h):
     if name == "NumpyArray" and call("isscalar", [h]).i:
         tmp = NumpyArray(_h=h)
         arr = np.asarray(tmp)
-        return arr[()]
+        # pybind's box(): bool/int*/uint*/float32/float64 -> py::cast of the C++ number (Python bool/int/float),
+        # datetime64/timedelta64 -> numpy scalar with the format's unit, everything else -> ndarray.item()
+        if arr.dtype.kind in "Mm":
+            return arr[()]
+        return arr[()].item()
     cls = _CLASSES.get(name)
     if cls is None:
         raise core.BridgeMisuse("no Python class for " + name)
@@ -498,7 +503,10 @@ class Content(object):
 
     def type(self, typestrs=None):
         from akshim import typesforms
-        return typesforms.wrap_type(call("type", [self._h]).h, typestrs)
+        ss = []
+        for k, v in dict(typestrs or {}).items():
+            ss += [k, v]
+        return typesforms.wrap_type(call("c_type", [self._h], ss=ss).h)
 
     @property
     def form(self):
@@ -511,7 +519,10 @@ class Content(object):
 
     @property
     def caches(self):
-        from akshim import virtual
+        try:
+            from akshim import virtual
+        except ImportError:     # no VirtualArray support loaded: no node can be virtual
+            return []
         return virtual.caches_of(self)
 
     def tojson(self, *args, **kwargs):
@@ -785,7 +796,7 @@ class NumpyArray(Content):
             out = np.asarray(core.Holder(ptr, shape, dt, strides, self))
         if dtype is not None and np.dtype(dtype) != out.dtype:
             return out.astype(dtype)
-        return out
+        return out.copy() if copy else out
 
     shape = property(lambda self: tuple(self._info()[2]))
     strides = property(lambda self: tuple(self._info()[3]))
@@ -1076,6 +1087,12 @@ def _mk_union(name, idxcls):
         @staticmethod
         def regular_index(tags):
             return _wrap_index(call("union_regular_index", [_as_index(tags, Index8)._h], [idxcls._kind]).h)
+
+        @staticmethod
+        def nested_tags_index(offsets, counts):
+            cs = [_as_index(c, Index64) for c in counts]
+            res = call("c_union_nested_tags_index", [_as_index(offsets, Index64)._h] + [c._h for c in cs], [idxcls._kind])
+            return (_wrap_index(res.h), _wrap_index(res.h2))
     C.__name__ = C.__qualname__ = name
     return _register(C)
 
